@@ -23,6 +23,7 @@ Randomised methods (surrogates, shuffles, random copies) take part only as
 interferers, with both library RNGs seeded from integers in the case.
 """
 import inspect
+import re
 import zlib
 
 import numpy as np
@@ -71,11 +72,9 @@ ASSUMPTIONS = [
 TOL = 1e-9
 SPECTRAL = {"eigenvector_centrality", "nsi_eigenvector_centrality",
             "msf_synchronizability"}
-INPLACE_DOCUMENTED = {
-    "Data.normalize_time_series_array", "ClimateData.normalize_time_series_array",
-    "RecurrencePlot.normalize_time_series",
-    "CouplingAnalysis.symmetrize_by_absmax",
-}
+# a query may only be exempted from the input clause (Q.inplace_ok) if the
+# docstring of its method says so; build_table() enforces this
+INPLACE_DOC = re.compile(r"in[- ]place|modifies the given array", re.I)
 
 
 # ===================================================================== values
@@ -306,6 +305,12 @@ def build_table(cls, not_queries, explicit, random_names=(), prefix="",
             raise HarnessError("duplicate query %s" % q.name)
         table[q.name] = q
         covered.add(q.method.split(".")[-1])
+        if q.inplace_ok:
+            doc = getattr(cls, q.method.split(".")[-1]).__doc__ or ""
+            if not INPLACE_DOC.search(doc):
+                raise HarnessError("%s.%s exempted from the input clause but "
+                                   "not documented as in-place" % (
+                                       cls.__name__, q.method))
     for name, kind in pub.items():
         if kind != "method" or name in not_queries or name in skip_auto:
             continue
